@@ -541,6 +541,11 @@ def _int_validated_names(fv, before: int) -> Set[str]:
                     for s2 in ast.walk(a):
                         if isinstance(s2, ast.Name) and s2.id != "list":
                             ok.add("each:" + s2.id)
+            if isinstance(sub, ast.Call) and not is_sym(sub) and call_fname(sub) == "zip" and len(sub.args) > pos and not sub.keywords:
+                # zip(itertools.repeat("name"), values): component `pos` of every pair is an element of that argument
+                for s2 in ast.walk(strip_norm(sub.args[pos])):
+                    if isinstance(s2, ast.Name) and s2.id not in ("list", "tuple", "itertools"):
+                        ok.add("each:" + s2.id)
             if is_sym(sub, "comp") and isinstance(sub.args[1], ast.Tuple) and len(sub.args[1].elts) > pos and is_sym(sub.args[2], "gen"):
                 e = sub.args[1].elts[pos]
                 src = strip_norm(sub.args[2].args[0])
